@@ -3318,10 +3318,19 @@ class CppEmitter(Visitor):
         ``fpy::borrow`` interop helper), which cannot bind a ``const``
         reference.
         """
-        if param is None or self.unbox is None:
+        if param is None:
             return emitted
         want = param.ty
         have = self._storage_or_none(e)
+        if self.unbox is None:
+            # Every list is a handle here, so representation cannot differ --
+            # but the *element type* can: the callee's parameter storage covers
+            # what its own body stores into the list, which the caller's
+            # inference never saw.  Nothing converts one `std::vector`
+            # instantiation into another, and a copy would lose the write.
+            if not self._same_list_storage(have, want):
+                raise self._refuse_mismatch(have, want, e)
+            return emitted
         if not (isinstance(have, CppList) and isinstance(want, CppList)):
             self._require_bridgeable(have, want, e)
             return emitted
@@ -3353,6 +3362,19 @@ class CppEmitter(Visitor):
             )
         self._is_boxed(have)  # strict tripwire: a handle is handed over
         return f'*{self._bind_operand(emitted)}'
+
+    @classmethod
+    def _same_list_storage(cls, have: CppType | None, want: CppType) -> bool:
+        """Whether every list inside *have* is the list *want* declares at the
+        same position.  Scalars are left to C++'s own conversions."""
+        if isinstance(have, CppList) or isinstance(want, CppList):
+            return have == want
+        if isinstance(have, CppTuple) and isinstance(want, CppTuple):
+            return len(have.elts) == len(want.elts) and all(
+                cls._same_list_storage(h, w)
+                for h, w in zip(have.elts, want.elts)
+            )
+        return True
 
     def _visit_tuple_expr(self, e: TupleExpr, ctx) -> str:
         # Through `_emit_at`: `std::make_tuple` deduces from its arguments, so
